@@ -10,6 +10,7 @@ import (
 	"encoding/base64"
 	"encoding/json"
 	"fmt"
+	"net/http"
 	"net/url"
 	"strings"
 	"testing"
@@ -18,6 +19,7 @@ import (
 	jose "github.com/go-jose/go-jose/v4"
 
 	"github.com/zitadel/oidc/v3/pkg/crypto"
+	"github.com/zitadel/oidc/v3/pkg/op"
 
 	"verif/harness/engine"
 	"verif/harness/rig"
@@ -38,6 +40,23 @@ const (
 	caseAt   = stageGap + 30*time.Second
 )
 
+// Every provider of this check derives its issuer from the request's Host header
+// (op.IssuerFromHost): one storage, two virtual hosts. Host 0 is the rig's default.
+var hosts = []string{rig.Host, "b.example"}
+
+func issuerOf(host int) string { return "https://" + hosts[host] }
+
+func newRig(caps refstore.Caps) *rig.Rig {
+	return rig.MustNew(rig.Opts{Caps: &caps, IssuerFn: op.IssuerFromHost("")})
+}
+
+// hreq builds a request addressed to virtual host `host`.
+func hreq(host int, method, target string, form url.Values, hdr map[string]string) *http.Request {
+	rq := rig.Req(method, target, form, hdr)
+	rq.Host, rq.URL.Host = hosts[host], hosts[host]
+	return rq
+}
+
 // tok describes one presentable token string.
 type tok struct {
 	kind   string // alphabet name
@@ -49,6 +68,8 @@ type tok struct {
 	state  string // "live" | "expired" | "revoked" | "bogus" | "forged-sub" | "missing" | "ext"
 	jwt    bool   // a JWT that verifies under the provider's key
 	opaque bool   // AES-sealed access token
+	host   int    // virtual host (issuer) the token was issued under; -1 = none
+	soft   string // non-empty: liveness of this token is not decided by the statement (Either), reason
 }
 
 type world struct {
@@ -56,6 +77,8 @@ type world struct {
 	st  *refstore.State
 	sub map[string]*tok // subject alphabet
 	act map[string]*tok // actor alphabet
+	// private_key_jwt client assertions of client "jwt" (audience: both issuers)
+	assertion, assertionForged string
 }
 
 func secretOf(client string) string { return "secret-" + client }
@@ -98,30 +121,63 @@ func atID(s string) (id, sub string) {
 
 type family struct {
 	client, user string
+	host         int
 	at, rt, idt  string
 }
 
 func build(t *testing.T, c *engine.Check) *world {
 	w := &world{c: c, sub: map[string]*tok{}, act: map[string]*tok{}}
-	r := rig.MustNew(rig.Opts{})
+	r := newRig(refstore.CapAll)
 	fams := map[string]*family{}
 	var fail string
-	issue := func(name, client, user string) {
+	issueAt := func(name, client, user string, host int) {
 		if fail != "" {
 			return
 		}
-		code, resp := r.CodeFlow(0, client, user, "openid profile email offline_access", nil)
+		cl := r.Core.Cfg.Clients[client]
+		q := url.Values{"client_id": {client}, "redirect_uri": {cl.Redirects[0]}, "response_type": {"code"},
+			"scope": {"openid profile email offline_access"}, "state": {"st"}, "nonce": {"n-1"}}
+		resp := r.Do(0, hreq(host, "GET", "/authorize", q, nil))
+		id := ""
+		if u := resp.Location(); resp.Status/100 == 3 && u != nil && strings.HasPrefix(u.Path, "/login") {
+			id = u.Query().Get("authRequestID")
+		}
+		if id == "" || r.Core.Login(id, user) != nil {
+			fail = fmt.Sprintf("no login redirect for %s: %d %s", name, resp.Status, resp.Body)
+			return
+		}
+		resp = r.Do(0, hreq(host, "GET", "/authorize/callback", url.Values{"id": {id}}, nil))
+		code := ""
+		if u := resp.Location(); u != nil {
+			code = u.Query().Get("code")
+		}
 		if code == "" {
 			fail = fmt.Sprintf("no code for %s: %d %s", name, resp.Status, resp.Body)
 			return
 		}
-		tr := r.ExchangeCode(0, client, code, nil)
-		f := &family{client: client, user: user, at: tr.Str("access_token"), rt: tr.Str("refresh_token"), idt: tr.Str("id_token")}
+		tr := r.Do(0, hreq(host, "POST", "/oauth/token", url.Values{"grant_type": {"authorization_code"}, "code": {code}, "redirect_uri": {cl.Redirects[0]}},
+			map[string]string{"Authorization": rig.Basic(client, secretOf(client))}))
+		f := &family{client: client, user: user, host: host, at: tr.Str("access_token"), rt: tr.Str("refresh_token"), idt: tr.Str("id_token")}
 		if tr.Status != 200 || f.at == "" || f.rt == "" || f.idt == "" {
 			fail = fmt.Sprintf("token response for %s: %d %s", name, tr.Status, tr.Body)
 			return
 		}
+		if m := jwtPayload(f.idt); m == nil || m["iss"] != issuerOf(host) {
+			fail = fmt.Sprintf("ID token of %s does not name issuer %s", name, issuerOf(host))
+			return
+		}
 		fams[name] = f
+	}
+	issue := func(name, client, user string) { issueAt(name, client, user, 0) }
+	endSession := func(name string) {
+		if fail != "" {
+			return
+		}
+		f := fams[name]
+		resp := r.Do(0, hreq(f.host, "GET", "/end_session", url.Values{"id_token_hint": {f.idt}}, nil))
+		if resp.Status/100 != 3 || resp.Panic != "" {
+			fail = fmt.Sprintf("end_session for %s: %d %s %s", name, resp.Status, resp.Body, resp.Panic)
+		}
 	}
 	revoke := func(name string, refresh bool) {
 		if fail != "" {
@@ -132,7 +188,7 @@ func build(t *testing.T, c *engine.Check) *world {
 		if refresh {
 			form = url.Values{"token": {f.rt}, "token_type_hint": {"refresh_token"}}
 		}
-		resp := r.Do(0, rig.Req("POST", "/revoke", form, map[string]string{"Authorization": rig.Basic(f.client, secretOf(f.client))}))
+		resp := r.Do(0, hreq(f.host, "POST", "/revoke", form, map[string]string{"Authorization": rig.Basic(f.client, secretOf(f.client))}))
 		if resp.Status != 200 || resp.Panic != "" {
 			fail = fmt.Sprintf("revocation for %s: %d %s %s", name, resp.Status, resp.Body, resp.Panic)
 		}
@@ -150,6 +206,10 @@ func build(t *testing.T, c *engine.Check) *world {
 		issue("revrt-web", "web", "u1")
 		issue("revrt-webjwt", "webjwt", "u1")
 		issue("actrev-webjwt", "webjwt", "u2")
+		issue("term-web2", "web2", "u2")
+		issueAt("b-webjwt", "webjwt", "u1", 1)
+		issueAt("b-act-webjwt", "webjwt", "u2", 1)
+		endSession("term-web2")
 		revoke("revat-web", false)
 		revoke("revat-webjwt", false)
 		revoke("revrt-web", true)
@@ -169,7 +229,7 @@ func build(t *testing.T, c *engine.Check) *world {
 	// genuine tokens -------------------------------------------------------
 	mk := func(kind, fam, which, wantState string) *tok {
 		f := fams[fam]
-		tk := &tok{kind: kind, owner: f.client, sub: f.user}
+		tk := &tok{kind: kind, owner: f.client, sub: f.user, host: f.host}
 		switch which {
 		case "at":
 			tk.str, tk.typ = f.at, ttAccess
@@ -240,7 +300,9 @@ func build(t *testing.T, c *engine.Check) *world {
 		}
 		return s
 	}
-	bogus := func(kind, s string) *tok { return &tok{kind: kind, str: s, state: "bogus"} }
+	bogus := func(kind, s string) *tok { return &tok{kind: kind, str: s, state: "bogus", host: -1} }
+	ext := func() *tok { return &tok{kind: "ext", str: "ext:u2", typ: ttJWT, sub: "u2", state: "ext", host: -1} }
+	softly := func(tk *tok, why string) *tok { tk.soft = why; return tk }
 
 	subs := []*tok{
 		mk("jwt-at", "webjwt", "at", "live"),
@@ -249,6 +311,9 @@ func build(t *testing.T, c *engine.Check) *world {
 		mk("rt-web", "web", "rt", "live"),
 		mk("idt", "webjwt", "idt", "live"),
 		mk("idt-web", "web", "idt", "live"),
+		// issued under the second virtual host (issuer https://b.example)
+		mk("jwt-at-b", "b-webjwt", "at", "live"),
+		mk("idt-b", "b-webjwt", "idt", "live"),
 		mk("expired-jwt-at", "old-webjwt", "at", "expired"),
 		mk("expired-opaque-at", "old-web", "at", "expired"),
 		mk("expired-rt", "old-webjwt", "rt", "expired"),
@@ -257,35 +322,81 @@ func build(t *testing.T, c *engine.Check) *world {
 		mk("revoked-opaque-at", "revat-web", "at", "revoked"),
 		mk("revoked-rt", "revrt-webjwt", "rt", "revoked"),
 		mk("jwt-at-of-revoked-rt", "revrt-webjwt", "at", "revoked"),
+		// session of (web2, u2) ended through /end_session
+		mk("terminated-at", "term-web2", "at", "revoked"),
+		mk("terminated-rt", "term-web2", "rt", "revoked"),
+		softly(mk("idt-terminated", "term-web2", "idt", "live"), "id-token-of-terminated-session"),
 		bogus("forged-key", keys.SignCompact(keys.Get("p256c"), jose.ES256, "sig-1", variant(func(map[string]any) {}))),
 		bogus("foreign-iss", keys.SignCompact(provKey, jose.ES256, "sig-1", variant(func(m map[string]any) { m["iss"] = "https://evil.example" }))),
 		{kind: "forged-sub", str: keys.SignCompact(provKey, jose.ES256, "sig-1", variant(func(m map[string]any) { m["sub"] = "u2" })),
-			typ: ttAccess, owner: "webjwt", sub: "u2", state: "forged-sub", jwt: true},
+			typ: ttAccess, owner: "webjwt", sub: "u2", state: "forged-sub", jwt: true, host: 0},
 		bogus("garbage", "not.a-token"),
 		bogus("sealed-unknown", seal("at987654:u1")),
 		bogus("sealed-3part", seal(mustID(fams["web"].at)+":u1:x")),
-		{kind: "ext", str: "ext:u2", typ: ttJWT, sub: "u2", state: "ext"},
-		{kind: "missing", state: "missing"},
+		bogus("sealed-1part", seal(mustID(fams["web"].at))),
+		ext(),
+		{kind: "missing", state: "missing", host: -1},
 	}
 	for _, tk := range subs {
 		w.sub[tk.kind] = tk
 	}
 	acts := []*tok{
-		{kind: "none", state: "missing"},
+		{kind: "none", state: "missing", host: -1},
 		mk("jwt-at", "act-webjwt", "at", "live"),
 		mk("opaque-at", "act-web", "at", "live"),
 		mk("rt", "act-webjwt", "rt", "live"),
 		mk("idt", "act-webjwt", "idt", "live"),
+		mk("jwt-at-b", "b-act-webjwt", "at", "live"),
 		mk("expired-jwt-at", "old-webjwt", "at", "expired"),
+		mk("expired-opaque-at", "old-web", "at", "expired"),
+		mk("expired-rt", "old-webjwt", "rt", "expired"),
+		mk("expired-idt", "old-webjwt", "idt", "expired"),
 		mk("revoked-jwt-at", "actrev-webjwt", "at", "revoked"),
+		mk("revoked-rt", "revrt-webjwt", "rt", "revoked"),
+		mk("terminated-at", "term-web2", "at", "revoked"),
 		bogus("garbage", "not.a-token"),
-		{kind: "ext", str: "ext:u2", typ: ttJWT, sub: "u2", state: "ext"},
+		bogus("foreign-iss", w.sub["foreign-iss"].str),
+		bogus("sealed-3part", w.sub["sealed-3part"].str),
+		ext(),
 		bogus("forged-key", w.sub["forged-key"].str),
 	}
 	for _, tk := range acts {
 		w.act[tk.kind] = tk
 	}
+	for _, d := range space {
+		var have map[string]*tok
+		switch d.Name {
+		case "subj":
+			have = w.sub
+		case "actor":
+			have = w.act
+		default:
+			continue
+		}
+		for _, v := range d.Vals {
+			if have[v] == nil {
+				c.Internal("prefix: alphabet value " + d.Name + "=" + v + " has no token")
+			}
+		}
+		if len(have) != len(d.Vals) {
+			c.Internal("prefix: token list and alphabet of " + d.Name + " differ in size")
+		}
+	}
+
+	// client assertions (private_key_jwt) of client "jwt": acceptable under either virtual host
+	nowS := now.Unix()
+	assertion := mustJSON(map[string]any{"iss": "jwt", "sub": "jwt", "aud": []string{issuerOf(0), issuerOf(1)}, "iat": nowS - 5, "exp": nowS + 3600})
+	w.assertion = keys.SignCompact(keys.Get("p256b"), jose.ES256, "jk2", assertion)
+	w.assertionForged = keys.SignCompact(keys.Get("p256c"), jose.ES256, "jk2", assertion)
 	return w
+}
+
+func mustJSON(v any) []byte {
+	b, err := json.Marshal(v)
+	if err != nil {
+		panic(err)
+	}
+	return b
 }
 
 func mustID(at string) string {
